@@ -147,11 +147,7 @@ class GoFE:
         M.intr_prefix.append((CODEC, codec_call))
         M.fe = self
         M.cks_registered = cks_registered
-        M.cks_hint = (4, False)
-        for f in packet.fields:
-            sem = self.spec.resolve(f)
-            if sem[0] == 'checksum':
-                M.cks_hint = (WIDTH[sem[1]], sem[1].startswith('i'))
+        M.cks_hint = refmod.cks_hints(self.spec, packet)
         try:
             M.run_init(self.pkg)
         except GoPanic as gp:
@@ -640,7 +636,7 @@ def read_fixed(M, st, n, pad, left):
 def _(M, a):
     alg, buf = a[0], a[1]
     st = bufstate(M, buf)
-    w, signed = M.cks_hint
+    w, signed = M.cks_hint.get(alg, M.cks_hint['*'])
     return refmod.cks_uf(alg, w, list(st.cell.v[:buf_len(st)]))
 
 
